@@ -493,11 +493,16 @@ func (e *framingEngine) Generate(c *Ctx) {
 	big = append(big, f2...)
 	do(big, nil, "invalid-length")
 	// (5) large frames up to just under the limit
-	sizes := []int{1, 4095, 4096, 4097, 65536}
+	// the boundary itself in both tiers: a body of exactly the limit and of limit-3 (limit + 4 prefix bytes and limit + 1 with
+	// the prefix: a limit that wrongly counts the prefix rejects both), limit+1 is the `invalid-length` case above
+	sizes := []int{1, 4095, 4096, 4097, 65536, 4*1024*1024 - 3, 4 * 1024 * 1024}
 	if c.Thorough() {
-		sizes = append(sizes, 1<<20, 4*1024*1024-1)
+		sizes = append(sizes, 1<<20, 4*1024*1024-4, 4*1024*1024-2, 4*1024*1024-1)
 	}
 	for _, sz := range sizes {
+		if sz >= 4*1024*1024-4 {
+			c.R.Hit("large:at-limit")
+		}
 		p := make([]byte, 4+sz)
 		binary.BigEndian.PutUint32(p, uint32(sz))
 		stream := append(append(append([]byte(nil), p...), f1...), f2...)
